@@ -141,8 +141,11 @@ impl Engine for LiveEngine {
         let (sim, store, keys, clients) = if slow_reader {
             let sim = SimConfig {
                 strategy: Strategy::Starve(3), // thread 3 = first client (root, worker, coordinator before it)
-                hold_sites: vec!["read.after_pread".to_string(), "read.before_pin".to_string()][..1 + r.below(2) as usize].to_vec(),
+                // "after_sector_load": the extent is pinned and not yet read; "read.before_pin": the
+                // record is resolved but not yet pinned (the retirement goes ahead, the read turns stale)
+                hold_sites: vec![if r.chance(2, 3) { "after_sector_load".to_string() } else { "read.before_pin".to_string() }],
                 hold_steps: *r.pick(&[150u64, 400, 1200]),
+                hold_through_idle: true,
                 tick_ns: *r.pick(&[20_000u64, 100_000]),
                 shards: 1,
                 workers: 1,
@@ -246,8 +249,8 @@ impl Engine for LiveEngine {
         report.count(&format!("cfg.shards{}_workers{}", store.verif_shard_counts().len(), store.verif_worker_count()), 1);
         let changes: Arc<Mutex<Vec<Change>>> = Arc::new(Mutex::new(Vec::new()));
         let done: Arc<Mutex<usize>> = Arc::new(Mutex::new(0));
-        // (instant the last read returned, reads done, first read failure)
-        let reads: Arc<Mutex<(u64, u64, Option<String>)>> = Arc::new(Mutex::new((0, 0, None)));
+        // (instant the last read returned, reads done, first read failure, stale-extent answers)
+        let reads: Arc<Mutex<(u64, u64, Option<String>, u64)>> = Arc::new(Mutex::new((0, 0, None, 0)));
         let mut handles = Vec::new();
         for (ci, ops) in sc.clients.iter().enumerate() {
             let (sim2, store2, keys2, ops2, ch2, done2, cfg2, reads2) = (
@@ -283,7 +286,7 @@ impl Engine for LiveEngine {
                 let log = changes.lock().unwrap().clone();
                 // the slowed-down flusher of the hot-key runs gets three bounds
                 let bound = if sc.knob("hot", 0) == 1 { 3 * DURABLE_BOUND_NS } else { DURABLE_BOUND_NS };
-                if let Err((rule, detail)) = check_durable_upto(&disk, &log, now.saturating_sub(bound), now, sc.store.ttl, sim.now_wall()) {
+                if let Err((rule, detail)) = check_durable_upto(&disk, &log, now.saturating_sub(bound), now, sc.store.ttl, sim.now_wall(), &[]) {
                     report.fail(&rule, detail);
                     break;
                 }
@@ -308,10 +311,11 @@ impl Engine for LiveEngine {
         }
         let log = changes.lock().unwrap().clone();
         report.ops = log.len() as u64;
-        let (last_read_done, reads_done, read_failure) = reads.lock().unwrap().clone();
+        let (last_read_done, reads_done, read_failure, stale_answers) = reads.lock().unwrap().clone();
         if sc.knob("slow_reader", 0) == 1 {
             report.count("slow_reader_runs", 1);
             report.count("slow_reader_reads", reads_done);
+            report.count("slow_reader_stale_extent_answers", stale_answers);
         }
         if let Some(why) = read_failure {
             report.fail("read-error", why);
@@ -326,8 +330,19 @@ impl Engine for LiveEngine {
             let wait = (t_last + DURABLE_BOUND_NS).saturating_sub(sim.now_mono());
             sim.sleep(Duration::from_nanos(wait));
             let now = sim.now_mono();
-            if let Err((rule, detail)) = check_durable_upto(&disk, &log, t_last, now, sc.store.ttl, sim.now_wall()) {
+            // keys a reader may still be reading one bound after the last modification
+            let reader_busy = last_read_done + DURABLE_BOUND_NS > now || *done.lock().unwrap() < n_clients;
+            let pinned: Vec<Vec<u8>> = if sc.knob("slow_reader", 0) == 1 && reader_busy { vec![sc.keys[0].clone()] } else { Vec::new() };
+            if let Err((rule, detail)) = check_durable_upto(&disk, &log, t_last, now, sc.store.ttl, sim.now_wall(), &pinned) {
                 report.fail(&rule, detail);
+            } else if !pinned.is_empty() {
+                report.count("durable_bound_checks_with_reader_inside", 1);
+                // one bound after the reader left nothing is excused any more
+                let wait = (last_read_done + DURABLE_BOUND_NS).saturating_sub(sim.now_mono());
+                sim.sleep(Duration::from_nanos(wait));
+                if let Err((rule, detail)) = check_durable_upto(&disk, &log, t_last, sim.now_mono(), sc.store.ttl, sim.now_wall(), &[]) {
+                    report.fail(&rule, format!("(one bound after the last reader left) {detail}"));
+                }
             } else {
                 report.count("durable_bound_checks", 1);
                 // the same image recovers in a fresh handle to the final state
@@ -447,7 +462,7 @@ fn client(
     ops: &[Op],
     writer: u8,
     changes: &Mutex<Vec<Change>>,
-    reads: &Mutex<(u64, u64, Option<String>)>,
+    reads: &Mutex<(u64, u64, Option<String>, u64)>,
 ) {
     let mut counter = 0u32;
     let _ = cfg;
@@ -488,7 +503,8 @@ fn client(
                             other => g.2 = Some(format!("get({}) returned {} bytes that are not a value written to this key ({other:?})", show(k), v.len())),
                         }
                     }
-                    Err(feoxdb::FeoxError::KeyNotFound) | Err(feoxdb::FeoxError::StaleExtent) => {}
+                    Err(feoxdb::FeoxError::KeyNotFound) => {}
+                    Err(feoxdb::FeoxError::StaleExtent) => g.3 += 1,
                     Err(e) => g.2 = Some(format!("get({}) failed with {e:?}", show(k))),
                 }
             }
@@ -526,6 +542,7 @@ fn check_durable_upto(
     now: u64,
     ttl: bool,
     wall: u64,
+    pinned_keys: &[Vec<u8>],
 ) -> Result<(), (String, String)> {
     let image = disk.durable_image();
     let decoded = codec::decode_image(&image, DecodeOptions::default())
@@ -541,7 +558,15 @@ fn check_durable_upto(
         let found = decoded.live.get(key).map(|r| Gen { value: r.value.clone(), ts: r.timestamp, expiry: r.expiry });
         let ok = acceptable.iter().any(|s| **s == found)
             || (found.is_none() && ttl && acceptable.iter().any(|s| s.as_ref().is_some_and(|g| g.expiry != 0 && wall > g.expiry)));
-        if !ok {
+        // a delete becomes durable by retiring the key's durable generation, and a retirement
+        // waits for the readers of that extent ("once no reader holds them"): while a reader of
+        // this key may still be inside its read, an older genuine generation is acceptable in
+        // place of "absent"
+        let excused = !ok
+            && pinned_keys.contains(key)
+            && acceptable.iter().any(|s| s.is_none())
+            && found.as_ref().is_some_and(|f| list.iter().any(|c| c.state.as_ref() == Some(f)));
+        if !ok && !excused {
             let age_ms = (now - list[ci].at) / 1_000_000;
             return Err((
                 "write-behind-not-bounded".into(),
